@@ -9,6 +9,7 @@ open Wire Model.C19
   rot      z y x   (radians)              -> 9 floats (row-major), the model of make_rotation_matrix
   sag      <shape> x y                    -> z Fx Fy
   cyl      fp ft r t                      -> x y   (polar route with the on-axis point handled)
+  offpolar c k r t s which(0: shift in x, 1: shift in y) -> sag d/dr d/dt of the shifted parent conic in polar form
   local    P(3) <rot> X(3) S(3)           -> Xl(3) Sl(3)
   global   P(3) <rot> X(3) S(3)           -> Xg(3) Sg(3)
   trace    k <surface>*k P(3) S(3) n0     -> per surface: Pg(3) Sg(3) Ploc(3) Sloc(3) r(3) Sout(3) | fail
@@ -112,6 +113,17 @@ def step (t : List String) : String :=
         let (t, _) ← pf ts
         let (x, y) := cylNormalTotal (fun r => r == 0) fp ft r (Float.cos t) (Float.sin t)
         pure s!"{fmtFloat x} {fmtFloat y}"
+    | "offpolar" :: ts => do
+        let (c, ts) ← pf ts
+        let (k, ts) ← pf ts
+        let (r, ts) ← pf ts
+        let (t, ts) ← pf ts
+        let (s, ts) ← pf ts
+        let ct := Float.cos t
+        let st := Float.sin t
+        let sh : Shape Float := if ts == ["0"] then .offAxis c k s 0 else .offAxis c k 0 s
+        let (z, fx, fy) := sagGrad Float.sqrt sh (r * ct) (r * st)
+        pure s!"{fmtFloat z} {fmtFloat (fx * ct + fy * st)} {fmtFloat (r * (fy * ct - fx * st))}"
     | "local" :: ts => do
         let (p, ts) ← pv ts
         let (r, ts) ← prot ts
